@@ -263,7 +263,9 @@ func c11Gen(idx int) c11Case {
 	}
 	lo := uint64(1)
 	if c.Backend == "memdb" && c.Prefill > uint64(c.MemCap) {
-		lo = c.Prefill - uint64(c.MemCap) + 2
+		// the ring forgets its oldest rounds as the case appends (<= 9 rounds, two writers at most):
+		// a stream can only be owed rounds that are still held when it starts
+		lo = c.Prefill - uint64(c.MemCap) + 2 + 20
 	}
 	switch rng.Intn(5) {
 	case 0:
@@ -440,6 +442,23 @@ func waitRegistered(st *vfsStack, c *vfsConsumer) bool {
 }
 
 // quiesce: wait until the consumer's delivered count has been stable for a while.
+// awaitHead waits (bounded, generous: the box may be loaded) until the consumer has been handed the store's
+// head; the verdict "behind the head" is only taken after that wait, a gap in the middle needs no waiting.
+func (c *vfsConsumer) awaitHead(st *vfsStack) {
+	for i := 0; i < 800; i++ {
+		r := c.rounds()
+		if len(r) > 0 && r[len(r)-1] >= st.head {
+			return
+		}
+		select {
+		case <-c.ctx.Done():
+			return
+		default:
+		}
+		time.Sleep(5 * time.Millisecond)
+	}
+}
+
 func (c *vfsConsumer) quiesce() {
 	last, stable := -1, 0
 	for i := 0; i < 400 && stable < 8; i++ {
@@ -497,6 +516,7 @@ func c11Run(run *vfRun, c c11Case) {
 			run.Inconclusive(fmt.Sprintf("burst did not complete after the consumer resumed: %v", err))
 			return
 		}
+		cons.awaitHead(st)
 		cons.quiesce()
 		run.Count("streams", 1)
 		run.Count("beacons_delivered", int64(len(cons.rounds())))
@@ -604,6 +624,7 @@ func c11Run(run *vfRun, c c11Case) {
 		run.Inconclusive(fmt.Sprintf("live append did not return: %v", err))
 		return
 	}
+	cons.awaitHead(st)
 	cons.quiesce()
 	run.Count("streams", 1)
 	run.Count("beacons_delivered", int64(len(cons.rounds())))
@@ -620,6 +641,7 @@ func c11Run(run *vfRun, c c11Case) {
 		c11Check(run, c, st, cons, "first", true)
 	}
 	if second != nil {
+		second.awaitHead(st)
 		second.quiesce()
 		run.Count("streams", 1)
 		c11Check(run, c, st, second, "second", true)
